@@ -6,6 +6,7 @@ import atexit
 import datetime
 import logging
 import os
+import re
 from typing import Any
 from typing import Dict
 from typing import Optional
@@ -112,6 +113,9 @@ class GoogleLogger(object):
             structured_log.update(message)  # type:ignore
             return log_it(structured_log)
         else:
+            if isinstance(message, str) and "://" in message:
+                # as LogFormatter.format does: no credentials from the user-info of a URL
+                message = re.sub(r":\/\/(.*?)\@", r"://<redacted>@", message)
             structured_log["message"] = message
             return log_it(structured_log)
 
